@@ -33,6 +33,7 @@
 #include "inc/GlyphCache.h"
 #include "inc/GlyphFace.h"
 #include "inc/FileFace.h"
+#include "inc/Sparse.h"
 #include <unistd.h>
 #undef private
 #undef protected
@@ -348,6 +349,30 @@ static void run_sfnt(const std::vector<std::string> &f) {
     printf("%s\n", out.c_str());
 }
 
+// ------------------------------------------------------------------ graphite2::sparse (Model/SparseModel.v)
+//   <id> sparse <k:v,k:v,...|-> <key,key,...>     ->  <id> SP <ok|null> cap=<n> <value;value;...>
+static void run_sparse(const std::vector<std::string> &f) {
+    using namespace graphite2;
+    std::vector<std::pair<uint16_t, uint16_t> > ps;
+    if (f[2] != "-") { std::istringstream is(f[2]); std::string x; while (std::getline(is, x, ',')) { size_t c = x.find(':'); ps.push_back(std::make_pair((uint16_t)atoi(x.substr(0, c).c_str()), (uint16_t)atoi(x.substr(c + 1).c_str()))); } }
+    // exact-size heap copy so that ASan sees any read outside the pairs
+    std::pair<uint16_t, uint16_t> *arr = (std::pair<uint16_t, uint16_t> *)malloc(ps.size() * sizeof(ps[0]) + 1);
+    for (size_t i = 0; i < ps.size(); i++) arr[i] = ps[i];
+    std::string out = f[0] + " SP";
+    {
+        sparse sp(arr, arr + ps.size());
+        if (!sp) out += " null";
+        else {
+            out += " ok cap=" + std::to_string(sp.capacity());
+            std::istringstream is(f[3]); std::string x; std::string vals;
+            while (std::getline(is, x, ',')) vals += (vals.empty() ? "" : ";") + std::to_string(sp[(uint16_t)atoi(x.c_str())]);
+            out += " " + vals;
+        }
+    }
+    free(arr);
+    printf("%s\n", out.c_str());
+}
+
 int main(int argc, char **argv) {
     repo = argc > 1 ? argv[1] : "/repo";
     std::string line;
@@ -357,6 +382,7 @@ int main(int argc, char **argv) {
         if (f.size() >= 6 && f[1] == "api") run_api(f);
         else if (f.size() >= 4 && f[1] == "table") run_table(f);
         else if (f.size() >= 4 && f[1] == "sfnt") run_sfnt(f);
+        else if (f.size() >= 4 && f[1] == "sparse") run_sparse(f);
         else printf("%s BAD\n", f.empty() ? "?" : f[0].c_str());
         fflush(stdout); case_end();
     }
